@@ -495,7 +495,7 @@ def gen_specs(chk, pid):
                           "foreign file with padding between blocks"))
     # the unused slots of a foreign file point at a free region BETWEEN two live blocks that is large enough for what is
     # added next (a writer that dropped a block without compacting): one add, observed from all sides
-    if pid in ("C10", "C11", "C04"):
+    if pid in ("C10", "C11", "C04", "C03"):
         for j in range(2 if quick else 8):
             small = pool["EV"][1] if j % 2 else pool["EM"][1]
             need = len(small.as_model()[3][0])
